@@ -72,9 +72,83 @@ func requestRoles(p *Prog) *reqRoles {
 			rr.execLoop = m
 		case direct(func(c ssa.CallInstruction) bool { _, ok := isPolicyInvoke(c); return ok }):
 			rr.handleErr = m
-		case sig.Params().Len() == 1 && typeIs(sig.Params().At(0).Type(), "codecs", "PartialBatch"):
-			rr.batchIdem = m
-		case sig.Params().Len() == 0 && sig.Results().Len() == 1 && direct(isParserClassifier):
+		}
+		_ = sig
+	}
+	// the error-result handler may have been split: it is the method that is handed the raw
+	// error frame by the delivery path and (transitively, through the request's own helpers)
+	// consults the retry policy
+	reqHelperCalls := func(m *ssa.Function, pred func(ssa.CallInstruction) bool) bool {
+		found := false
+		seen := map[*ssa.Function]bool{}
+		var walk func(f *ssa.Function, d int)
+		walk = func(f *ssa.Function, d int) {
+			if seen[f] || d > 3 {
+				return
+			}
+			seen[f] = true
+			eachCall(f, func(c ssa.CallInstruction) {
+				if pred(c) {
+					found = true
+				}
+				if callee := c.Common().StaticCallee(); callee != nil && callee.Pkg == m.Pkg && callee.Parent() == nil && callee != rr.execLoop {
+					walk(callee, d+1)
+				}
+			})
+		}
+		walk(m, 0)
+		return found
+	}
+	if onRes := p.methodOf(rr.req, "OnResult"); onRes != nil {
+		eachCall(onRes, func(c ssa.CallInstruction) {
+			callee := c.Common().StaticCallee()
+			if callee == nil || recvNamed(callee) != rr.req || callee.Signature.Params().Len() != 1 || !typeIs(callee.Signature.Params().At(0).Type(), "frame", "RawFrame") {
+				return
+			}
+			if reqHelperCalls(callee, func(c ssa.CallInstruction) bool { _, ok := isPolicyInvoke(c); return ok }) {
+				rr.handleErr = callee
+			}
+		})
+	}
+	// the batch classifier: a function of package proxy taking the partial batch and returning (bool, error)
+	for _, f := range p.ScopedFuncs("proxy") {
+		if f.Parent() != nil {
+			continue
+		}
+		sig := f.Signature
+		if sig.Results().Len() != 2 {
+			continue
+		}
+		for i := 0; i < sig.Params().Len(); i++ {
+			if typeIs(sig.Params().At(i).Type(), "codecs", "PartialBatch") {
+				if b, ok := sig.Results().At(0).Type().Underlying().(*types.Basic); ok && b.Kind() == types.Bool {
+					rr.batchIdem = f
+				}
+			}
+		}
+	}
+	// the idempotency check: a parameterless bool method that reaches the statement classifier and records the state
+	stateF0 := p.Field("proxy", name, "state")
+	for _, m := range p.methodsOf(rr.req) {
+		sig := m.Signature
+		if sig.Params().Len() != 0 || sig.Results().Len() != 1 {
+			continue
+		}
+		if b, ok := sig.Results().At(0).Type().Underlying().(*types.Basic); !ok || b.Kind() != types.Bool {
+			continue
+		}
+		if !reqHelperCalls(m, isParserClassifier) {
+			continue
+		}
+		writes := false
+		eachInstr(m, func(in ssa.Instruction) {
+			if st, ok := in.(*ssa.Store); ok {
+				if fa, ok := st.Addr.(*ssa.FieldAddr); ok && fieldOfAddr(fa) == stateF0 {
+					writes = true
+				}
+			}
+		})
+		if writes || rr.checkIdem == nil {
 			rr.checkIdem = m
 		}
 	}
@@ -88,6 +162,34 @@ func requestRoles(p *Prog) *reqRoles {
 	rr.stateF = p.Field("proxy", name, "state")
 	rr.retryCountF = p.Field("proxy", name, "retryCount")
 	return rr
+}
+
+// helper reports whether fn is a private helper of the request logic that a simulation
+// looks through: a method of the request type or a plain function of package proxy, other than
+// the reply functions and the functions that have a role of their own.
+func (rr *reqRoles) helper(p *Prog, fn *ssa.Function) bool {
+	if fn == nil || fn.Parent() != nil || fn.Blocks == nil || fn.Pkg == nil || fn.Pkg.Pkg.Path() != pkgPath("proxy") {
+		return false
+	}
+	if replyFuncs(p, rr.req)[fn] {
+		return false
+	}
+	switch fn {
+	case rr.execLoop, rr.checkIdem, rr.handleErr, rr.batchIdem, rr.onClose:
+		return false
+	}
+	if recvNamed(fn) == rr.req {
+		return true
+	}
+	// plain functions that are handed the request or one of the request's messages
+	if fn.Signature.Recv() == nil {
+		for _, par := range fn.Params {
+			if n := namedOf(par.Type()); n != nil && (n == rr.req || typeIs(par.Type(), "codecs", "PartialBatch") || typeIs(par.Type(), "codecs", "PartialQuery") || typeIs(par.Type(), "codecs", "PartialExecute")) {
+				return true
+			}
+		}
+	}
+	return false
 }
 
 // constOf returns the value of a package-level constant.
@@ -264,7 +366,7 @@ func checkC04(p *Prog, r *Report) {
 	{
 		rs := newRequestSim(p)
 		base := rs.Model
-		rs.Inline = func(fn *ssa.Function) bool { return false }
+		rs.Inline = func(fn *ssa.Function) bool { return rr.helper(p, fn) }
 		rs.Model = func(sm *Sim, st *State, call ssa.CallInstruction, callee *ssa.Function) []*State {
 			switch callee {
 			case rr.checkIdem:
@@ -373,6 +475,7 @@ func c04Check(p *Prog, r *Report, rr *reqRoles) {
 		s := newSim(p)
 		s.Tracked[rr.stateF] = true
 		s.Model = classifierModel(p, rr, pi, false)
+		s.Inline = func(fn *ssa.Function) bool { return rr.helper(p, fn) }
 		init := newState()
 		init.cells[rr.stateF] = avC(states[sn])
 		outs := s.Run(rr.checkIdem, init)
